@@ -73,6 +73,12 @@ pub fn sources(vals: &[u32], w: i32, h: i32, quick: bool) -> Vec<SrcSpec> {
         let c = [0xff204080u32, 0x80002040, 0xfe00fe7f, 0x40400020][i];
         v.push(SrcSpec::Image { w: 2, h: 2, data: vec![c; 4], repeat: *repeat, bilinear: *bilinear, xf: [0.7, 0.2, -0.3, 1.1, 0.35, -0.6] });
     }
+    // a single repeated texel: a constant colour however it is sampled (and still subject to the global alpha)
+    v.push(SrcSpec::Image { w: 1, h: 1, data: vec![0xc0604020], repeat: true, bilinear: false, xf: IDENT });
+    v.push(SrcSpec::Image { w: 1, h: 1, data: vec![0xff8040c0], repeat: true, bilinear: true, xf: [0.7, 0.2, -0.3, 1.1, 0.35, -0.6] });
+    // a two-circle gradient with opaque stops that is undefined (transparent) left of its small
+    // circle: there the source is transparent black, whatever the stops are (elsewhere: C12)
+    v.push(SrcSpec::TwoCircle { stops: vec![Stop { pos: 0.0, color: 0xffff0000 }, Stop { pos: 1.0, color: 0xff0000ff }], spread: Spr::Pad, p: [4.0, 2.0, 0.5, 8.0, 2.0, 1.5] });
     // constant gradients (every stop the same colour): the colour is known without a t model
     v.push(SrcSpec::Linear { stops: vec![Stop { pos: 0.0, color: 0x80ff8040 }, Stop { pos: 1.0, color: 0x80ff8040 }], spread: Spr::Pad, p: [0., 0., 5., 3.] });
     if !quick {
